@@ -245,7 +245,8 @@ class Run:
     def floor(self, what, found, minimum):
         """a rule that matches fewer instances than were confirmed by hand is an analysis error, not a pass"""
         self.floors.append({'what': what, 'found': found, 'floor': minimum})
-        if found < minimum:
+        if found < minimum and not self.findings:
+            # (with findings present the scenarios were cut short by the violations themselves: the violations are the verdict)
             raise AnalysisError(f'instance floor not met: {what}: found {found} < {minimum} (rule would pass vacuously)')
 
     def control(self, name, flagged):
